@@ -26,6 +26,19 @@ func Decode(data []byte, res any) error {
 		return err
 	}
 
+	// a hand-written UnmarshalTL starts after the constructor id: decodeRegisteredObject has read the id when the
+	// type is chosen by it, so when the type is named the id is read (and checked) here
+	if o, isObject := res.(Object); isObject {
+		if _, handWritten := res.(Unmarshaler); handWritten {
+			if crc := d.PopCRC(); d.err == nil && crc != o.CRC() {
+				d.err = fmt.Errorf("invalid crc code: %#v, want: %#v", crc, o.CRC())
+			}
+			if d.err != nil {
+				return errors.Wrapf(d.err, "decode %T", res)
+			}
+		}
+	}
+
 	d.decodeValue(reflect.ValueOf(res))
 	if d.err != nil {
 		return errors.Wrapf(d.err, "decode %T", res)
